@@ -29,4 +29,4 @@ require (
 	golang.org/x/sys v0.33.0 // indirect
 )
 
-replace github.com/semafind/semadb => /tmp/ag/c04c08/repo
+replace github.com/semafind/semadb => /repo
